@@ -49,6 +49,72 @@ def single_byte_class(name: str, pat: bytes):
     return table
 
 
+def _is_c(e) -> bool:
+    return isinstance(e, ast.Name) and e.id == "c"
+
+
+def _target_of(body) -> str:
+    """the scanner a branch of _parse_main hands over to (`self._parse1 = self._parse_x`), else `main`"""
+    tgt = "main"
+    tok = False
+    for st in body:
+        if (isinstance(st, ast.Assign) and len(st.targets) == 1 and isinstance(st.targets[0], ast.Attribute)
+                and st.targets[0].attr == "_parse1" and isinstance(st.value, ast.Attribute)):
+            tgt = st.value.attr.replace("_parse_", "")
+        if (isinstance(st, ast.Expr) and isinstance(st.value, ast.Call) and isinstance(st.value.func, ast.Attribute)
+                and st.value.func.attr == "_add_token"):
+            tok = True
+    return tgt + ("+token" if tok else "")
+
+
+def main_dispatch(mod: ast.AST):
+    """The if/elif chain of PSBaseParser._parse_main on the first non-space byte `c`, as a table of
+    (test kind, literal bytes, target scanner)."""
+    fn = P.find_function(mod, "PSBaseParser._parse_main")
+    chain = [st for st in fn.body if isinstance(st, ast.If) and not (isinstance(st.test, ast.UnaryOp))]
+    if len(chain) != 1:
+        raise P.Untranslatable("_parse_main: expected exactly one dispatch chain")
+    node = chain[0]
+    rows = []
+    while True:
+        t = node.test
+        if (isinstance(t, ast.Compare) and _is_c(t.left) and len(t.ops) == 1 and isinstance(t.ops[0], ast.Eq)
+                and isinstance(t.comparators[0], ast.Constant) and isinstance(t.comparators[0].value, bytes)):
+            rows.append(("eq", t.comparators[0].value, _target_of(node.body)))
+        elif (isinstance(t, ast.BoolOp) and isinstance(t.op, ast.Or) and len(t.values) == 2
+              and isinstance(t.values[0], ast.Compare) and _is_c(t.values[0].left)
+              and isinstance(t.values[0].ops[0], ast.In) and isinstance(t.values[0].comparators[0], ast.Constant)
+              and isinstance(t.values[1], ast.Call) and isinstance(t.values[1].func, ast.Attribute)
+              and t.values[1].func.attr == "isdigit" and _is_c(t.values[1].func.value)):
+            rows.append(("in_or_digit", t.values[0].comparators[0].value, _target_of(node.body)))
+        elif (isinstance(t, ast.Call) and isinstance(t.func, ast.Attribute) and t.func.attr == "isalpha"
+              and _is_c(t.func.value)):
+            rows.append(("alpha", b"", _target_of(node.body)))
+        else:
+            raise P.Untranslatable("_parse_main: unsupported test " + ast.dump(t)[:80])
+        if len(node.orelse) == 1 and isinstance(node.orelse[0], ast.If):
+            node = node.orelse[0]
+            continue
+        rows.append(("else", b"", _target_of(node.orelse)))
+        break
+    return rows
+
+
+def keyword_constants(mod: ast.AST):
+    """bytes literals `_parse_keyword` compares the token with (`true`, `false`), in source order"""
+    fn = P.find_function(mod, "PSBaseParser._parse_keyword")
+    out = []
+    for n in ast.walk(fn):
+        if (isinstance(n, ast.Compare) and isinstance(n.left, ast.Attribute) and n.left.attr == "_curtoken"
+                and len(n.ops) == 1 and isinstance(n.ops[0], ast.Eq) and isinstance(n.comparators[0], ast.Constant)
+                and isinstance(n.comparators[0].value, bytes)):
+            out.append((n.lineno, n.comparators[0].value))
+    out.sort()
+    if len(out) != 2:
+        raise P.Untranslatable("_parse_keyword: expected two comparisons of the token with bytes literals")
+    return [v for _, v in out]
+
+
 def generate(lean_dir: str):
     mod = P.parse_file("pdfminer/psparser.py")
     out = [P.HEADER.format(src="pdfminer/psparser.py", ns="LexTables")]
@@ -71,6 +137,26 @@ def generate(lean_dir: str):
     out.append("/-- `ESC_STRING` of psparser.py: escape letter -> byte. -/\n")
     out.append("def ESC_STRING : List (UInt8 × UInt8) := [" +
                ", ".join(f"({k[0]}, {v})" for k, v in esc.items()) + "]\n\n")
+    rows = main_dispatch(mod)
+    kinds = {"eq": 0, "in_or_digit": 1, "alpha": 2, "else": 3}
+    targets = {"main": 0, "comment": 1, "literal": 2, "number": 3, "float": 4, "keyword": 5, "string": 6,
+               "wopen": 7, "wclose": 8}
+    coded = []
+    for k, lit, t in rows:
+        base, tok = (t[:-6], 100) if t.endswith("+token") else (t, 0)
+        if base not in targets:
+            raise P.Untranslatable(f"_parse_main hands over to an unknown scanner {base!r}")
+        coded.append((kinds[k], lit, targets[base] + tok))
+    out.append("/-- the if/elif chain of `_parse_main` on the first non-space byte: (test, literal, target).\n"
+               "    test: 0 `c == lit`, 1 `c in lit or c.isdigit()`, 2 `c.isalpha()`, 3 else;\n"
+               "    target: 0 main, 1 comment, 2 literal, 3 number, 4 float, 5 keyword, 6 string, 7 wopen, 8 wclose,\n"
+               "    +100 when the branch adds a token. -/\n")
+    out.append("def MAIN_DISPATCH : List (Nat × List UInt8 × Nat) := [" +
+               ", ".join(f"({k}, {P.lean_bytes(lit)}, {t})" for k, lit, t in coded) + "]\n\n")
+    kws = keyword_constants(mod)
+    out.append("/-- the literals `_parse_keyword` turns into booleans (first: True, second: False) -/\n")
+    out.append(f"def KW_TRUE : List UInt8 := {P.lean_bytes(kws[0])}\n")
+    out.append(f"def KW_FALSE : List UInt8 := {P.lean_bytes(kws[1])}\n\n")
     bufsiz = P.literal(P.find_assign(mod, "PSBaseParser.BUFSIZ"))
     if not (isinstance(bufsiz, int) and bufsiz >= 1):
         raise P.Untranslatable("PSBaseParser.BUFSIZ is not a positive int literal")
